@@ -42,7 +42,7 @@ def r20_1(ck, F):
     for m in ("into_inner", "as_ref", "as_mut"):
         b = F.main_body(f"{H}::Handle::{m}")
         arms, sw, _ = event_arms(b, ST)
-        oks = [bb for bb, i, v in b.result_stores("Ok")]
+        oks = [bb for bb, e in ok_capable_stores(b)]
         owning = set()
         for v in ("LocalCreated", "LocalReceived"):
             if v in arms:
@@ -62,11 +62,16 @@ def r20_2(ck, F):
             "Handle::cast::<U>() followed by access: a value exposed at the wrong type", floor=4)
     for m in ("into_inner", "as_ref", "as_mut"):
         b = F.main_body(f"{H}::Handle::{m}")
-        oks = [(bb, i) for bb, i, v in b.result_stores("Ok")]
+        oks = [(bb, e) for bb, e in ok_capable_stores(b)]
         ok = bool(oks)
-        for bb, i in oks:
-            ce = [(switch_expr(b, s), switch_meaning(b, s, v)) for s, tb, v in controlling_edges(b, bb)]
+        for bb, e0 in oks:
+            ce = conds(b, bb)
             good = False
+            if e0 is not None:
+                # the result is the outcome of downcast::<T>() handed on through outcome-preserving combinators
+                src, _ = peel_outcome(e0)
+                if isinstance(src, tuple) and src and src[0] == "call" and "downcast" in src[1] and "unchecked" not in src[1]:
+                    good = True
             for e, mng in ce:
                 calls = [c[1] for c in mir.calls_in(e)]
                 if any(c.endswith("Any::is") or c.endswith(">::is") or "::is" == c[-4:] for c in calls) and mng is True:
@@ -96,7 +101,7 @@ def r20_3(ck, F):
         e = b.expr(rv["ops"][rv["fields"].index("entry")])
         rm = mir.calls_in(e, "chmux::any_storage::AnyStorage::remove")
         st = bool(rm) and bool(mir.calls_in(rm[0][2][0], "rch::base::receiver::PortDeserializer::storage"))
-        ce = [(switch_expr(b, s), switch_meaning(b, s, v)) for s, tb, v in controlling_edges(b, bb)]
+        ce = conds(b, bb)
         some = any(x[0] == "discr" and mir.calls_in(x, "chmux::any_storage::AnyStorage::remove") and m == "Some" for x, m in ce)
         ck.expect(st and some, f"State::LocalReceived@{mir.strip_generics(b.path)}", "entry = storage.remove(id) of this connection",
                   f"LocalReceived constructed from {mir.show(e)[:80]}", b.loc(bb, i))
@@ -194,11 +199,18 @@ def r20_5(ck, F):
                 src_ok = True
     ck.expect(ok and src_ok, "LazyBlob::fetch#limit-before-recv", "receive limit = advertised length, set before recv",
               f"recv is not preceded by set_max_data_size(advertised len) (arg {mir.show(arg)})", k.loc(sm[0][0]))
-    aggs = [(bb, i) for bb, i, s in main.assigns() if s["rv"]["r"] == "agg" and s["rv"].get("dp") == k.dp]
+    aggs = [(main, bb, i) for bb, i, s in main.assigns() if s["rv"]["r"] == "agg" and s["rv"].get("dp") == k.dp]
     ok = bool(aggs)
-    for bb, i in aggs:
-        ce = [(switch_expr(main, s), switch_meaning(main, s, v)) for s, tb, v in controlling_edges(main, bb)]
-        ok = ok and any(e[0] == "call" and e[1] == "std::option::Option::is_none" and m is True for e, m in ce)
+    for x, bb, i in aggs:
+        ok = ok and controlled_by_option(x, bb, "None")
+    if not aggs:
+        # created inside the closure given to Option::get_or_insert_with (called only when the slot is empty)
+        for cl in F.kids(main):
+            if cl.kind == "closure" and any(s["rv"]["r"] == "agg" and s["rv"].get("dp") == k.dp for bb, i, s in cl.assigns()):
+                used = [t for bb, t in main.calls("std::option::Option::get_or_insert_with")
+                        if any(o.kind == "agg" and main.stmts(o.detail[0])[o.detail[1]]["rv"].get("dp") == cl.dp
+                               for o in main.origins(t["a"][1]))]
+                ok = bool(used)
     ck.expect(ok, "LazyBlob::fetch#once", "fetch future created only when none exists",
               "a second fetch future can replace an existing one (double fetch / lost data)", main.loc(0))
     errs = sorted({rv2["variant"] for bb, i, rv2 in k.aggregates("robj::lazy_blob::FetchError")} |
@@ -250,7 +262,7 @@ def r20_5b(ck, F):
                 if not cl:
                     ck.ok(f"{adt.split('::')[-1]}#take-output@{mir.strip_generics(b.path)}", "type is not Clone: the cache has one owner")
                     continue
-                ce = [(switch_expr(b, s), switch_meaning(b, s, v)) for s, tb, v in controlling_edges(b, bb)]
+                ce = conds(b, bb)
                 uniq = any(e[0] == "discr" and mir.calls_in(e, "std::sync::Arc::try_unwrap") and m == "Ok" for e, m in ce)
                 ck.expect(uniq, f"{adt.split('::')[-1]}#take-output@{mir.strip_generics(b.path)}", "take_output only when the Arc is unique",
                           f"{mir.strip_generics(b.path)} empties the fetch cache shared with clones (take_output not guarded by "
